@@ -63,12 +63,14 @@ def run(ctx, proofs):
                 if text == "skipped":
                     continue
                 if text in ("error", "panic"):
-                    failing.append({"input": case["src"], "impl": which + " " + text,
+                    failing.append({"input": case["src"], "body": lifteng.to_jsonable(case["body"]),
+                                    "impl": which + " " + text,
                                     "spec": "the definition lifts (Model.Lift.lift: %s)" % model[:200]})
                     continue
                 bad = lifteng.wellformed_failures(lifteng.parse_blocks(text), case["depth"])
                 if bad:
-                    failing.append({"input": case["src"], "impl": which + ": " + text, "spec": bad[:5]})
+                    failing.append({"input": case["src"], "body": lifteng.to_jsonable(case["body"]),
+                                    "impl": which + ": " + text, "spec": bad[:5]})
             before = impl[4:].split(" # ssa ", 1)[0]
             if before.count("; ") >= 1:
                 if before not in shapes:
@@ -80,7 +82,8 @@ def run(ctx, proofs):
                         kinds["with_branch_pending_at_end"] += 1
         elif impl in ("cfg panic", "cfg error", "noparse"):
             # every generated skeleton follows the grammar and must lift
-            failing.append({"input": case["src"], "impl": impl, "spec": "parses and lifts (model: %s)" % model[:200]})
+            failing.append({"input": case["src"], "body": lifteng.to_jsonable(case["body"]), "impl": impl,
+                            "spec": "parses and lifts (model: %s)" % model[:200]})
     for f in failing[:5]:
         ctx.violation("the control-flow graph of a definition is not well formed: %s" % (f["spec"],), f)
     if not failing:
@@ -116,21 +119,36 @@ def run(ctx, proofs):
     ctx.assumptions += [
         "the skeleton abstraction: lifting looks only at the statement kind and the sub-statements (leaf lifting "
         "`stmt.try_lift` never fails and never touches the block structure) — observed by the correspondence on rendered programs",
-        "HashSet iteration order in `for i in pred_set` is irrelevant: proved for the model (complete_order_irrelevant), "
-        "the implementation is observed with its real random hash order",
-        "definition_complexity.rs computes 2 + edges - nodes on usize: no underflow is proved for the model graph "
-        "(C12_complexity_no_underflow), observed for the implementation through the correspondence",
+        "HashSet iteration order in `for i in pred_set`: the model iterates in increasing order; the result of the loop is "
+        "characterised by membership only (complete_spec / back_fold in Proofs.LiftInv), the implementation is observed "
+        "with its real random hash order",
+        "definition_complexity.rs computes (2 + edges) - nodes on usize: every block j > 0 has a predecessor "
+        "(C12_descending_path), hence edges >= nodes - 1 and no underflow; the counting step is argued in design.d/C12.md, "
+        "not mechanised",
     ]
 
 
 def replay(ctx, rep):
-    src = rep.get("input") or (rep.get("first") or {}).get("src")
-    if not src:
+    body = rep.get("body")
+    if not body:
         print("replay names a broken obligation, not an input:", rep.get("broken"))
         return 1
-    hb = common.build_harness("lift")
-    out = common.run_lines(hb, ["cfg"], [lifteng.hexline(src)])
-    print("source        :", src)
-    print("implementation:", out[0])
-    print("specification :", rep.get("spec") or rep.get("first", {}).get("model"))
-    return 1
+    case = lifteng.make_case(lifteng.from_jsonable(body))
+    (_, impl, model), = lifteng.run_cfg(common, [case])
+    print("source        :", case["src"])
+    print("implementation:", impl)
+    print("model         :", model)
+    bad = []
+    if impl.startswith("cfg ") and " # ssa " in impl:
+        for which, text in zip(("into_cfg", "into_ssa"), impl[4:].split(" # ssa ", 1)):
+            if text == "skipped":
+                continue
+            if text in ("error", "panic"):
+                bad.append(which + " " + text)
+            else:
+                bad += [which + ": " + b for b in lifteng.wellformed_failures(lifteng.parse_blocks(text), case["depth"])]
+    else:
+        bad.append(impl)
+    for b in bad[:8]:
+        print("violated      :", b)
+    return 1 if bad else 0
